@@ -10,9 +10,16 @@ use serde_json::json;
 use std::sync::{mpsc, Arc, Barrier};
 
 fn pool(rng: &mut Rng, corpus: &Corpus, n: usize) -> Vec<(Vec<u8>, NormalizerSettings)> {
+    pool_tagged(rng, corpus, n).into_iter().map(|(b, s, _)| (b, s)).collect()
+}
+
+/// the pool with the family of every entry (corpus / midword / symbols / astral)
+fn pool_tagged(rng: &mut Rng, corpus: &Corpus, n: usize) -> Vec<(Vec<u8>, NormalizerSettings, &'static str)> {
     // inputs that share decoded chunks, each with settings that differ in one parameter at a time
     let mut base: Vec<Vec<u8>> = vec![];
+    let mut tags: Vec<&'static str> = vec![];
     for _ in 0..(n / 6).max(4) {
+        tags.push("corpus");
         let t = rng.pick(&corpus.texts);
         let t: String = t.chars().skip(rng.below(200)).take(rng.range(60, 900)).collect();
         let enc = *rng.pick(&["utf-8", "utf-8", "windows-1252", "windows-1251", "koi8-r", "iso-8859-7", "big5", "shift_jis"]);
@@ -27,6 +34,7 @@ fn pool(rng: &mut Rng, corpus: &Corpus, n: usize) -> Vec<(Vec<u8>, NormalizerSet
         let mut t: String = (0..pre).map(|_| *rng.pick(&['!', '?', ';', '%', '#', '|', '~', '^', '{', '}', '\u{a7}', '\u{b6}'])).collect();
         t.push_str("abcdefghijklmnopqrstuvwxyzabcdefghijklmnopqrstuvwxyz and some more words after it");
         base.push(t.into_bytes());
+        tags.push("midword");
     }
     for _ in 0..4 {
         let t = rng.pick(&corpus.texts);
@@ -40,27 +48,46 @@ fn pool(rng: &mut Rng, corpus: &Corpus, n: usize) -> Vec<(Vec<u8>, NormalizerSet
             words[i] = w[..cut].iter().chain(std::iter::once(&sym)).chain(w[cut..].iter()).collect();
         }
         base.push(words.join(" ").into_bytes());
+        tags.push("symbols");
+    }
+    // texts with alphabetic characters of several SUPPLEMENTARY-plane blocks (CJK Extension B, mathematical alphanumerics,
+    // Gothic, Deseret, Linear B, emoji) between BMP ideographs and Latin words: whatever the library keeps per character
+    // or per block is exercised beyond the BMP as well
+    for _ in 0..4 {
+        let blocks: [(u32, u32); 7] = [(0x20000, 0x2A6DF), (0x1D400, 0x1D7CB), (0x10330, 0x1034A), (0x10400, 0x1044F), (0x10000, 0x1005D), (0x1F600, 0x1F64F), (0x2F800, 0x2FA1D)];
+        let mut t = String::new();
+        for w in 0..rng.range(30, 120) {
+            let (lo, hi) = blocks[rng.below(blocks.len())];
+            for _ in 0..rng.range(1, 6) {
+                if let Some(c) = char::from_u32(lo + rng.below((hi - lo + 1) as usize) as u32) { t.push(c); }
+            }
+            if w % 3 == 0 { t.push_str("\u{4f60}\u{597d}\u{4e16}\u{754c}"); }
+            if w % 5 == 0 { t.push_str(" word "); }
+            t.push(' ');
+        }
+        base.push(t.into_bytes());
+        tags.push("astral");
     }
     let mut out = vec![];
-    for b in &base {
+    for (b, tag) in base.iter().zip(tags.iter().copied()) {
         let d = default_settings();
-        out.push((b.clone(), d.clone()));
+        out.push((b.clone(), d.clone(), tag));
         let mut s = d.clone();
         s.threshold = OrderedFloat(*rng.pick(&[0.05f32, 0.1, 0.3, 0.5, 1.0]));
-        out.push((b.clone(), s));
+        out.push((b.clone(), s, tag));
         let mut s = d.clone();
         s.language_threshold = OrderedFloat(*rng.pick(&[0.0f32, 0.2, 0.5, 0.8]));
-        out.push((b.clone(), s));
+        out.push((b.clone(), s, tag));
         let mut s = d.clone();
         s.steps = rng.range(1, 9);
         s.chunk_size = rng.range(16, 300);
-        out.push((b.clone(), s));
+        out.push((b.clone(), s, tag));
         let mut s = d.clone();
         s.exclude_encodings = vec!["utf-8".into(), "ascii".into()];
-        out.push((b.clone(), s));
+        out.push((b.clone(), s, tag));
         // a prefix of the same input: shares its first chunks
         let k = (b.len() / 2).max(1);
-        out.push((b[..k].to_vec(), d.clone()));
+        out.push((b[..k].to_vec(), d.clone(), tag));
     }
     out
 }
@@ -217,7 +244,9 @@ pub fn run_memo(seed: u64, histories: usize, out: &str) -> serde_json::Value {
 pub fn run_threads(seed: u64, rounds: usize, out: &str) -> serde_json::Value {
     let corpus = load_corpus();
     let mut rng = Rng::new(seed);
-    let p = Arc::new(pool(&mut rng, &corpus, 48));
+    let tagged = pool_tagged(&mut rng, &corpus, 48);
+    let fam: Vec<&'static str> = tagged.iter().map(|x| x.2).collect();
+    let p: Arc<Vec<(Vec<u8>, NormalizerSettings)>> = Arc::new(tagged.into_iter().map(|(b, s, _)| (b, s)).collect());
     let refs: Arc<Vec<Vec<String>>> = Arc::new(p.iter().map(|(b, s)| {
         hooks::flush_caches();
         outcome_lines(&run_real(b, s))
@@ -234,13 +263,19 @@ pub fn run_threads(seed: u64, rounds: usize, out: &str) -> serde_json::Value {
             break;
         }
         let n = *rng.pick(&[2usize, 3, 8, 16, 64]);
-        let identical = r % 2 == 0;
+        let identical = r % 3 == 0;
+        // every third round: all threads work on DIFFERENT entries of ONE family (astral first), six calls each, so that
+        // whatever the library keeps per character / block / word is contended by look-alike inputs
+        let family: Option<&'static str> = if r % 3 == 2 { Some(["astral", "midword", "symbols", "corpus"][(r / 3) % 4]) } else { None };
+        let members: Vec<usize> = match family { Some(f) => (0..p.len()).filter(|&i| fam[i] == f).collect(), None => vec![] };
+        let n = if family.is_some() { n.max(8) } else { n };
         let first = rng.below(p.len());
         let barrier = Arc::new(Barrier::new(n));
         let (tx, rx) = mpsc::channel();
         let mut plan = vec![];
         for t in 0..n {
-            let idxs: Vec<usize> = if identical { vec![first; 3] } else { (0..4).map(|k| (first + t * 3 + k * 5) % p.len()).collect() };
+            let idxs: Vec<usize> = if !members.is_empty() { (0..6).map(|k| members[(t * 5 + k * 7 + first) % members.len()]).collect() }
+                else if identical { vec![first; 3] } else { (0..4).map(|k| (first + t * 3 + k * 5) % p.len()).collect() };
             plan.push(idxs.clone());
             let (p, refs, barrier, tx) = (p.clone(), refs.clone(), barrier.clone(), tx.clone());
             std::thread::spawn(move || {
